@@ -8,6 +8,8 @@ mod c05;
 mod c06;
 mod c07;
 mod c08;
+mod c11;
+mod c12;
 mod c13;
 mod c14;
 mod c17;
@@ -79,6 +81,8 @@ fn main() {
         "C06" => c06::run(&ctx),
         "C07" => c07::run(&ctx),
         "C08" => c08::run(&ctx),
+        "C11" => c11::run(&ctx),
+        "C12" => c12::run(&ctx),
         "C13" => c13::run(&ctx),
         "C14" => c14::run(&ctx),
         "C17" => c17::run(&ctx),
